@@ -815,7 +815,17 @@ pub fn link_references(rng: &mut Rng, stream: &mut Stream) {
             }
         }
     }
+    let all_rids: Vec<u32> = stream.insts.iter().filter_map(|i| i.rid).collect();
     for (pos, i) in stream.insts.iter_mut().enumerate() {
+        if !all_rids.is_empty() && matches!(i.name().as_str(), "Decorate" | "DecorateId" | "DecorateString" | "MemberDecorate" | "MemberDecorateString" | "Name" | "MemberName") && rng.chance(1, 2) {
+            // annotations and names precede what they annotate: the target is an id defined anywhere in the module
+            if let Some(MOp::W(k, v)) = i.ops.get_mut(0) {
+                if *k == s.k_idref {
+                    *v = *rng.pick(&all_rids);
+                }
+            }
+            continue;
+        }
         if i.is("Function") {
             // result type: a declared type (void among them); function type: a declared OpTypeFunction
             if rng.chance(1, 2) {
